@@ -374,7 +374,10 @@ impl World {
                         Arc::new(NullServerConfig { shared: null_shared.clone() }),
                         Arc::new(NullTokenKey(hash64(seed, &[b"tok", &[idx as u8]]))),
                     ),
+                    #[cfg(feature = "real")]
                     Lane::Real => crate::realcrypto::server_config(seed),
+                    #[cfg(not(feature = "real"))]
+                    Lane::Real => panic!("real crypto lane not compiled in"),
                 };
                 sc.transport_config(Arc::new(s.tcfg.build(cc)));
                 sc.migration(s.migration);
@@ -448,7 +451,10 @@ impl World {
         let cc = CcShared::new();
         let mut cfg = match self.lane {
             Lane::Null => ClientConfig::new(Arc::new(NullClientConfig { shared: self.eps[from].null_shared.clone() })),
+            #[cfg(feature = "real")]
             Lane::Real => crate::realcrypto::client_config(self.seed, from),
+            #[cfg(not(feature = "real"))]
+            Lane::Real => panic!("real crypto lane not compiled in"),
         };
         cfg.transport_config(Arc::new(tcfg.build(cc.clone())));
         let dcid = Self::pair_cid(pair);
